@@ -54,7 +54,7 @@ Fixpoint wstep (cap : nat) (sg : list seg) (q : list citem) (i : nat) : option (
 Definition all_done (sg : list seg) : bool := forallb (fun s => match sphase s with PDone => true | _ => false end) sg.
 
 Inductive ctid := TSrc | TW (i : nat) | TMain.
-Definition cstep (cap : nat) (c : chain) (t : ctid) : option chain :=
+Definition chain_step (cap : nat) (c : chain) (t : ctid) : option chain :=
   match t with
   | TSrc =>
     match sphs c with
@@ -94,7 +94,7 @@ Definition cstep (cap : nat) (c : chain) (t : ctid) : option chain :=
 Definition chain_init (b : nat) (payloads : list payload) (fs : list (payload -> payload)) : chain :=
   mkchain (repeat Empty b) SCons payloads (map (fun f => mkseg [] f [] PCons) fs) MJoin.
 Definition chain_run (cap : nat) (sched : list ctid) (c : chain) : option chain :=
-  fold_left (fun o t => match o with Some x => cstep cap x t | None => None end) sched (Some c).
+  fold_left (fun o t => match o with Some x => chain_step cap x t | None => None end) sched (Some c).
 
 (* what the last worker (the sink) has received, as payloads *)
 Definition payloads_of (l : list citem) : list payload := flat_map (fun x => match x with Blk p => [p] | _ => [] end) l.
